@@ -102,8 +102,185 @@ def h_child_keys(prf_id, integ_id, keylen, proto, with_dh):
     return ['child_keys', bool(ok)]
 
 
+# ----------------------------------------------------------------------------- Diffie-Hellman: groups and encodings
+RFC3526_C = {2048: 124476, 3072: 1690314, 4096: 240904, 6144: 929484, 8192: 4743158}
+RFC3526_GROUP = {14: 2048, 15: 3072, 16: 4096, 17: 6144, 18: 8192}
+RFC5903 = {19: ('secp256r1', 256, 32), 20: ('secp384r1', 384, 48), 21: ('secp521r1', 521, 66)}
+
+
+def _pi_floor(shift):
+    """floor(pi * 2^shift) by Machin's formula in integer arithmetic (guard bits, then exactness check of the floor)"""
+    guard = 64
+    one = 1 << (shift + guard)
+
+    def arctan_inv(x):
+        total, term, n, x2 = 0, one // x, 1, x * x
+        while term:
+            total += term // n if (n // 2) % 2 == 0 else -(term // n)
+            term //= x2
+            n += 2
+        return total
+    pi = 4 * (4 * arctan_inv(5) - arctan_inv(239))
+    lo, hi = (pi - (1 << 20)) >> guard, (pi + (1 << 20)) >> guard
+    assert lo == hi, 'not enough guard bits'
+    return lo
+
+
+def rfc3526_prime(bits):
+    return (1 << bits) - (1 << (bits - 64)) - 1 + (1 << 64) * (_pi_floor(bits - 130) + RFC3526_C[bits])
+
+
+def h_primes():
+    """every MODP prime literal of crypto.py equals 2^n - 2^(n-64) - 1 + 2^64 * (floor(2^(n-130) pi) + c) of RFC 3526 (ground z3 queries)"""
+    import z3
+    from symx import core
+    eng = core.engine()
+    c, m = MODS['crypto'], MODS['message']
+    gd = c.MODPDH._group_dict
+    groups = {int(k): v for k, v in gd.items()}
+    if set(groups) != set(RFC3526_GROUP):
+        return {'class': ['primes'], 'violation': f'MODP groups {sorted(groups)} differ from RFC 3526 groups 14-18'}
+    for g, bits in RFC3526_GROUP.items():
+        lit = int(groups[g], 16)
+        s = z3.Solver()
+        s.add(z3.IntVal(lit) != z3.IntVal(rfc3526_prime(bits)))
+        if str(s.check()) != 'unsat':
+            return {'class': ['primes'], 'violation': f'the prime of group {g} differs from the RFC 3526 {bits}-bit MODP prime'}
+        if len(groups[g]) != bits // 4:
+            return {'class': ['primes'], 'violation': f'the hexadecimal literal of group {g} does not have {bits // 4} digits (key_len would be wrong)'}
+    for g, (name, ksz, klen) in RFC5903.items():
+        curve = c.ECDH._ec_groups[m.Transform.DhId(g)]
+        if curve.name != name or curve.key_size != ksz:
+            return {'class': ['primes'], 'violation': f'group {g} is mapped to {curve.name}, RFC 5903 says {name}'}
+    if set(int(k) for k in c.ECDH._ec_groups) != set(RFC5903):
+        return {'class': ['primes'], 'violation': 'ECP groups differ from RFC 5903 groups 19-21'}
+    return ['primes', 'ok']
+
+
+class _LibModel:
+    """stand-in for cryptography's dh / ec modules: public numbers are symbolic, everything handed to the library is recorded"""
+
+    def __init__(self, eng, bits):
+        self.eng, self.bits = eng, bits
+        self.rec = {}
+
+    # --- dh
+    def DHParameterNumbers(self, p, g):
+        lib = self
+        lib.rec['p'], lib.rec['g'] = p, g
+        y = self.eng.sym_int('y', 0, None, width=self.bits + 8)
+        self.eng.assume(y < p)
+        lib.rec['y'] = y
+
+        class Priv:
+            def public_key(s):
+                return type('Pub', (), {'public_numbers': lambda s2: type('N', (), {'y': y})()})()
+
+            def exchange(s, peer):
+                lib.rec['exchange_peer'] = peer
+                return lib.eng.sym_bytes('shared', 8)
+        return type('PN', (), {'parameters': lambda s, backend=None: type('Params', (), {'generate_private_key': lambda s2: Priv()})()})()
+
+    def DHPublicNumbers(self, y, pn):
+        self.rec['peer_y'] = y
+        return type('PubN', (), {'public_key': lambda s, backend=None: ('peer-key', y)})()
+
+    # --- ec
+    def generate_private_key(self, curve, backend=None):
+        lib = self
+        lib.rec['curve'] = curve
+        x = self.eng.sym_int('x', 0, None, width=self.bits + 8)
+        y = self.eng.sym_int('y', 0, None, width=self.bits + 8)
+        self.eng.assume(x < (1 << self.bits)); self.eng.assume(y < (1 << self.bits))
+        lib.rec['x'], lib.rec['y'] = x, y
+
+        class Priv:
+            key_size = curve.key_size
+
+            def public_key(s):
+                return type('Pub', (), {'public_numbers': lambda s2: type('N', (), {'x': x, 'y': y})()})()
+
+            def exchange(s, algo, peer):
+                lib.rec['exchange_peer'] = peer
+                return lib.eng.sym_bytes('shared', 8)
+        return Priv()
+
+    def EllipticCurvePublicNumbers(self, x, y, curve):
+        self.rec['peer_x'], self.rec['peer_y'], self.rec['peer_curve'] = x, y, curve
+        return type('PubN', (), {'public_key': lambda s, backend=None: ('peer-key', x, y)})()
+
+    def ECDH(self):
+        return 'ECDH'
+
+    SECP256R1 = SECP384R1 = SECP521R1 = None
+
+
+class _Int(int):
+    """crypto.int with from_bytes on symbolic bytes"""
+    @staticmethod
+    def from_bytes(b, byteorder='big', signed=False):
+        from symx import core
+        if isinstance(b, core.SymBytes) and not b.is_concrete():
+            assert byteorder == 'big' and not signed
+            return b.to_int()
+        return int.from_bytes(bytes(b), byteorder, signed=signed)
+
+
+def h_dh(group):
+    """public values are fixed-width big-endian encodings of the library's numbers; compute_secret hands the library exactly the
+    integers the peer's bytes encode"""
+    from symx import core
+    eng = core.engine()
+    c, m = MODS['crypto'], MODS['message']
+    gid = m.Transform.DhId(group)
+    modp = group in RFC3526_GROUP
+    bits = RFC3526_GROUP[group] if modp else RFC5903[group][1]
+    klen = bits // 8 if modp else RFC5903[group][2]
+    lib = _LibModel(eng, 8 * klen)
+    saved = (c.dh, c.ec, getattr(c, 'int', int))
+    c.dh, c.int = lib, _Int
+    real_ec = c.ec
+    c.ec = type('EC', (), {'generate_private_key': staticmethod(lib.generate_private_key), 'EllipticCurvePublicNumbers': staticmethod(lib.EllipticCurvePublicNumbers),
+                           'ECDH': staticmethod(lib.ECDH)})
+    try:
+        d = c.DiffieHellman.from_group(gid)
+        P = eng.prove
+        pub = core.SymBytes.lift(d.public_key)
+        if modp:
+            if lib.rec.get('g') != 2 or lib.rec.get('p') != rfc3526_prime(bits):
+                return {'class': ['dh'], 'violation': f'group {group}: generator/prime handed to the library are not (2, RFC 3526 prime)'}
+            if len(pub) != klen or d.key_len != klen:
+                return {'class': ['dh'], 'violation': f'group {group}: public value has {len(pub)} bytes, the group needs {klen}'}
+            P(pub.to_int() == lib.rec['y'], f'group {group}: the public value is not the big-endian encoding of y')
+            peer = eng.sym_bytes('peer_public', klen)
+            d.compute_secret(peer)
+            P(lib.rec['peer_y'] == core.SymBytes.lift(peer).to_int(), f'group {group}: the integer handed to the library is not the big-endian value of the peer KE data')
+        else:
+            if lib.rec['curve'].name != RFC5903[group][0]:
+                return {'class': ['dh'], 'violation': f'group {group}: curve {lib.rec["curve"].name}'}
+            if len(pub) != 2 * klen or d.key_len != klen:
+                return {'class': ['dh'], 'violation': f'group {group}: public value has {len(pub)} bytes, the group needs {2 * klen}'}
+            P(core.sym_and(core.SymBytes.lift(pub[:klen]).to_int() == lib.rec['x'], core.SymBytes.lift(pub[klen:]).to_int() == lib.rec['y']),
+              f'group {group}: the public value is not x | y, each fixed-width big-endian')
+            peer = eng.sym_bytes('peer_public', 2 * klen)
+            d.compute_secret(peer)
+            ps = core.SymBytes.lift(peer)
+            P(core.sym_and(lib.rec['peer_x'] == core.SymBytes.lift(ps[:klen]).to_int(), lib.rec['peer_y'] == core.SymBytes.lift(ps[klen:]).to_int()),
+              f'group {group}: the coordinates handed to the library are not the two halves of the peer KE data')
+            if lib.rec['peer_curve'].name != RFC5903[group][0]:
+                return {'class': ['dh'], 'violation': 'peer point on another curve'}
+        if d.shared_secret is None or len(d.shared_secret) != 8:
+            return {'class': ['dh'], 'violation': 'shared_secret is not what the library returned'}
+        return ['dh', group]
+    finally:
+        c.dh, c.ec, c.int = saved[0], real_ec, saved[2]
+
+
 def build_instances(tier):
     inst = []
+    inst.append(Instance('MODP primes (RFC 3526) and ECP curves (RFC 5903)', h_primes, ()))
+    for g in ((14, 19, 21) if tier == 'quick' else (14, 15, 16, 17, 18, 19, 20, 21)):
+        inst.append(Instance(f'DH group {g} encodings', h_dh, (g,), engine_kw={'query_timeout_ms': 120000}))
     sizes = {'quick': (0, 1, 19, 20, 21, 32, 33, 64, 65, 100, 224), 'thorough': tuple(range(0, 330, 1))}[tier]
     for prf_id in PRFS:
         for size in sizes:
@@ -202,12 +379,15 @@ def main(tier, seed):
     chk = Check('C04', tier, seed,
                 functions=common.src_hash(c.Prf.prf, c.Prf.prfplus, ik.IkeSa.generate_ike_sa_key_material,
                                           ik.IkeSa.generate_child_sa_key_material, c.Integrity, c.Cipher.key_size),
-                bounds={'prf+': 'all keys (16/33 bytes) and seeds (24 bytes), output sizes quick: 11 boundary sizes, thorough: 0..329, 3 PRFs',
+                bounds={'DH': 'the 5 MODP prime literals vs the RFC 3526 formula (pi computed in integer arithmetic), generator 2, digits = bits/4; group -> curve '
+                              'table vs RFC 5903; with the library numbers symbolic (any y < p, any x, y < 2^(8 key_len)): public value = fixed-width big-endian '
+                              'encoding, compute_secret hands the library the big-endian integer(s) of the peer bytes; quick groups 14, 19, 21, thorough all 8',
+                        'prf+': 'all keys (16/33 bytes) and seeds (24 bytes), output sizes quick: 11 boundary sizes, thorough: 0..329, 3 PRFs',
                         'IKE keys': 'all nonces (16+17 bytes; thorough 32+33), SPIs, 12-byte shared secret (leading zero octets included), '
                                     'initial and rekey (old SK_d), both roles; quick: 4 suites, thorough: 3 PRF x 3 INTEG x 2 key lengths',
                         'CHILD keys': 'ESP and AH, with and without a fresh DH secret',
-                        'outside': 'HMAC/AES arithmetic, DH group primes and the fixed-width encoding of DH public values / shared secrets '
-                                   '(C code in cryptography/OpenSSL, not encodable); which nonces/secret the handshake passes in (C01)'},
+                        'outside': 'hash / AES / modular exponentiation / EC arithmetic (C code in cryptography/OpenSSL); the width of the shared secret returned '
+                                   'by the library exchange() (assumed fixed-width); which nonces/secret the handshake passes in (C01)'},
                 assumptions=['the HASH function (SHA-1/SHA-256/SHA-512) is an uninterpreted function with functional consistency; HMAC is its RFC 2104 '
                              'construction, on the reference side transcribed in symx/shims.hmac_rfc2104, so code that builds HMAC itself from hashlib is comparable',
                              'the reference transcribes RFC 7296 2.13, 2.14, 2.17, 2.18 independently of the code under test'],
